@@ -10,13 +10,14 @@ MANIFEST = dict(
 
 INVS = ["NoChangeLost", "HeldStay", "GoneNotInSession", "OneIdentity"]
 PROPS = ["DropKeepsFlush", "OnlyCleanLeave"]
-FOOTPRINT = ["DropRef", "Add", "SetV", "Delete", "Flush", "Commit", "Rollback", "Expire", "ExpireAll", "Get"]
+FOOTPRINT = ["DropRef", "ExpireV", "RefreshV", "Add", "SetV", "Delete", "Flush", "Commit", "Rollback", "Expire", "ExpireAll", "Get"]
 
 
 def spec(chk):
     q = chk.quick
     return dict(
-        cfgs=[dict(name="gc", acts=["SetV", "Expire", "Get", "DropRef"], depth=6 if q else 7, edge_sample=0.3 if q else 0.5, deep_depth=8 if q else 10,
+        cfgs=[dict(name="gc", acts=["SetV", "Expire", "ExpireV", "Get", "DropRef"], depth=6 if q else 7, edge_sample=0.25 if q else 0.5,
+                   edge_probs={"DropRef": 1.0}, deep_depth=8 if q else 10,
                    eoc=True, always_gc=True, random=200 if q else 2000),
               dict(name="gc_noexpire", acts=["SetV", "Get", "DropRef"], depth=5 if q else 6, edge_sample=0.4 if q else None, eoc=False, always_gc=True, random=100 if q else 1000)],
         invs=INVS, props=PROPS, footprint=FOOTPRINT,
